@@ -307,7 +307,10 @@ def connectedFld (h : Host) (sid : Fld Str) (ns : Fld Ns) : Except Err (Option (
   | .ok ns =>
     match sid with
     | .ok sid => if h.connected ns sid then .ok (some (sid, ns)) else .ok none
-    | .unhashable => if hasNs h.rooms ns then .error .typeError else .ok none
+    -- `self.rooms[namespace][None][sid]`: the KeyError of a missing namespace / room `None` is
+    -- caught, the TypeError of the bidict lookup is not
+    | .unhashable =>
+      if h.rooms.any (fun e => e.ns = ns ∧ e.room = none) then .error .typeError else .ok none
     | _ => .ok none
 
 def handleDisconnect (h : Host) (m : DMsg) : Res :=
